@@ -145,6 +145,12 @@ Qed.
 Lemma path_nonzero h x : In x (path_of cfg h) -> x <> 0.
 Proof. unfold path_of. rewrite <- in_rev. apply chain_nonzero. Qed.
 
+Lemma unwind_nonzero s c n l ret : pc_inv s (PUnwind c (n :: l) ret) -> n <> 0.
+Proof.
+  cbn [pc_inv]. intros (_ & _ & _ & _ & done & Hp & _).
+  apply (path_nonzero (eh c)). rewrite Hp. apply in_or_app. right. left. reflexivity.
+Qed.
+
 (* a thread outside the critical section does not touch the root handler or the call counter *)
 Lemma step_noncrit_root s t s' : inv s -> step cfg s t = Some s' ->
   in_critical (tpc (threads s t)) = false -> hs s' 0 = hs s 0 /\ ncalls s' = ncalls s /\ handled s' = handled s.
@@ -306,39 +312,31 @@ Proof.
       assert (Hn0 : n <> 0).
       { apply (path_nonzero (eh c)). rewrite Hp. apply in_or_app. right. left. reflexivity. }
       rewrite upd_other by congruence.
-      unfold upd in He. destruct (Nat.eqb_spec h n) as [->|Hne]; sim; [apply A; assumption|eapply S; eassumption].
+      unfold upd in He. destruct (Nat.eqb_spec h n) as [->|Hne]; sim; [apply A; assumption|exact (S _ _ Hh He)].
   - (* a reporter call implies errsReported *)
     intros Hn. pose proof (inv_calls _ I) as C. pose proof (inv_pc _ I t) as P.
     step_cases H; sim; try rewrite Epc in *; cbn [pc_inv] in P; rewrite ?upd_same; sim; try (apply C; assumption); try reflexivity.
-    + destruct P as (_ & B & _). assumption.
-    + destruct P as (_ & _ & _ & _ & done & Hp & _).
-      rewrite upd_other; [apply C; assumption|]. intros E. symmetry in E. revert E.
-      apply (path_nonzero (eh c)). rewrite Hp. apply in_or_app. right. left. reflexivity.
+    pose proof (unwind_nonzero _ _ _ _ _ P) as Hn0.
+    rewrite upd_other by congruence. apply C; assumption.
   - (* nothing handled: root untouched *)
     intros H0. pose proof (inv_handled0 _ I) as Z. pose proof (inv_pc _ I t) as P.
     step_cases H; sim; try rewrite Epc in *; cbn [pc_inv] in P; try (apply Z; assumption); try lia.
-    + destruct P as (_ & _ & _ & _ & D). lia.
-    + destruct P as (_ & _ & _ & D & _). lia.
   - (* something handled: the root shows it *)
     intros Hge. pose proof (inv_handled1 _ I) as Z. pose proof (inv_pc _ I t) as P. unfold root_err in *.
     step_cases H; sim; try rewrite Epc in *; cbn [pc_inv] in P; rewrite ?upd_same; sim; try (apply Z; assumption);
       try (left; reflexivity); try (right; congruence).
-    + right. congruence.
     + destruct P as (_ & B & _). left. assumption.
-    + destruct P as (_ & _ & _ & D & done & Hp & _).
-      rewrite upd_other; [apply Z; assumption|]. intros E. symmetry in E. revert E.
-      apply (path_nonzero (eh c)). rewrite Hp. apply in_or_app. right. left. reflexivity.
+    + pose proof (unwind_nonzero _ _ _ _ _ P) as Hn0.
+      rewrite upd_other by congruence. apply Z; assumption.
   - (* where a latched error comes from *)
     intros e He. pose proof (inv_origin _ I) as O. pose proof (inv_pc _ I t) as P. unfold root_err in *.
     step_cases H; sim; try rewrite Epc in *; cbn [pc_inv] in P; rewrite ?upd_same in He; sim;
       try (apply O; assumption); try discriminate.
+    + apply O. congruence.
     + right. reflexivity.
     + left. exists (CErr (etag c) (Some e)). split; [left; congruence|]. exists (etag c). reflexivity.
-    + destruct P as (_ & _ & _ & _ & done & Hp & _).
-      rewrite upd_other in He.
-      * apply O; assumption.
-      * intros E. symmetry in E. revert E.
-        apply (path_nonzero (eh c)). rewrite Hp. apply in_or_app. right. left. reflexivity.
+    + pose proof (unwind_nonzero _ _ _ _ _ P) as Hn0.
+      rewrite upd_other in He by congruence. apply O; assumption.
     + destruct (O _ He) as [(c0 & Hc0 & Hab)|Hp]; [|right; assumption].
       left. exists c0. split; [right; assumption|assumption].
   - (* a sub-handler nobody reported through is untouched *)
@@ -358,5 +356,247 @@ Qed.
 
 Lemma reach_inv s : reach s -> inv s.
 Proof. induction 1 as [|s t s' Hr IH Hs]; [apply inv_init|eapply inv_step; eassumption]. Qed.
+
+
+Lemma init_reach_run sched : reach (run cfg sched (init cfg)).
+Proof. apply run_reach. constructor. Qed.
+
+Lemma in_reporter_critical p : in_reporter p = true -> in_critical p = true.
+Proof. destruct p; cbn; congruence. Qed.
+
+(* ---- C08: the user's reporter is never entered concurrently ---- *)
+Theorem reporter_mutex_lemma : forall sched t1,
+  let s := run cfg sched (init cfg) in
+  in_reporter (tpc (threads s t1)) = true ->
+  mu s = Some t1 /\ forall t2, in_critical (tpc (threads s t2)) = true -> t2 = t1.
+Proof.
+  intros sched t1 s H. pose proof (reach_inv _ (init_reach_run sched)) as Iv. fold s in Iv.
+  apply in_reporter_critical in H. apply (inv_mu _ Iv) in H. split; [assumption|].
+  intros t2 H2. apply (inv_mu _ Iv) in H2. congruence.
+Qed.
+
+(* ---- C08: the abort latch ---- *)
+Lemma error_result_latched h e : herr h = Some e -> error_result h = Some e.
+Proof. unfold error_result. intros ->. rewrite andb_false_r. reflexivity. Qed.
+
+Lemma latched_no_call s t s' e : root_err s = Some e -> step cfg s t = Some s' -> ncalls s' = ncalls s.
+Proof. unfold root_err. intros He H. step_cases H; sim; try reflexivity; try congruence. Qed.
+
+Lemma latch_run sched : forall s e, reach s -> root_err s = Some e ->
+  root_err (run cfg sched s) = Some e /\ ncalls (run cfg sched s) = ncalls s.
+Proof.
+  induction sched as [|t rest IH]; intros s e Hr He; cbn [run]; [split; [assumption|reflexivity]|].
+  destruct (step cfg s t) as [s'|] eqn:E; [|apply IH; assumption].
+  assert (Hr' : reach s') by (eapply reach_step; eassumption).
+  pose proof (latch_step _ _ _ e (reach_inv _ Hr) E He) as He'.
+  destruct (IH s' e Hr' He') as (A & B). split; [assumption|].
+  rewrite B. eapply latched_no_call; eassumption.
+Qed.
+
+Theorem abort_latches_lemma : forall sched1,
+  let s1 := run cfg sched1 (init cfg) in
+  (forall t c idx e, tpc (threads s1 t) = PInRep c idx -> rep cfg idx (etag c) = Some e ->
+     exists s', step cfg s1 t = Some s' /\ root_err s' = Some e /\ tpc (threads s' t) = PUnlock c (Some e)) /\
+  (forall e, root_err s1 = Some e -> forall sched2,
+     let s2 := run cfg sched2 s1 in
+     root_err s2 = Some e /\ error_result (hs s2 0) = Some e /\ ncalls s2 = ncalls s1 /\
+  (forall t c idx, tpc (threads s2 t) <> PInRep c idx)).
+Proof.
+  intros sched1 s1. split.
+  - intros t c idx e Hpc Hrep. unfold step. rewrite Hpc. cbv zeta. eexists. split; [reflexivity|].
+    unfold root_err. sim. rewrite !upd_same. sim. rewrite Hrep. split; reflexivity.
+  - intros e He sched2 s2.
+    assert (Hr1 : reach s1) by apply init_reach_run.
+    destruct (latch_run sched2 s1 e Hr1 He) as (A & B). fold s2 in A, B.
+    split; [assumption|]. split; [apply error_result_latched; exact A|]. split; [assumption|].
+    intros t c idx Hpc.
+    assert (Hr2 : reach s2) by (apply run_reach; assumption).
+    pose proof (inv_pc _ (reach_inv _ Hr2) t) as P. rewrite Hpc in P. cbn [pc_inv] in P.
+    destruct P as (P & _). congruence.
+Qed.
+
+(* every HandleError call made when the root err was already e returns e; what the ghost esnap is; what a
+   root Error() / ReporterError() logs *)
+Theorem later_calls_lemma : forall sched t,
+  let s := run cfg sched (init cfg) in
+  (forall c ret e, In (LErr c ret) (tlog (threads s t)) -> esnap c = Some e -> ret = Some e) /\
+  (forall h pos tag rest s', tpc (threads s t) = PIdle -> prog (threads s t) = OErr h pos tag :: rest ->
+     step cfg s t = Some s' ->
+     tpc (threads s' t) = PLock {| eh := h; epos := pos; etag := tag; esnap := root_err s |}) /\
+  (forall rest s', tpc (threads s t) = PIdle -> prog (threads s t) = OError 0 :: rest ->
+     step cfg s t = Some s' ->
+     tlog (threads s' t) = LRead 0 true (error_result (hs s 0)) :: tlog (threads s t)) /\
+  (forall rest s', tpc (threads s t) = PIdle -> prog (threads s t) = ORepError 0 :: rest ->
+     step cfg s t = Some s' ->
+     tlog (threads s' t) = LRead 0 false (root_err s) :: tlog (threads s t)).
+Proof.
+  intros sched t s. pose proof (reach_inv _ (init_reach_run sched)) as Iv. fold s in Iv.
+  split; [|split; [|split]].
+  - intros c ret e Hin He. destruct (inv_log _ Iv t c ret Hin) as (A & _). apply A. assumption.
+  - intros h pos tag rest s' Hpc Hprog H. unfold step in H. rewrite Hpc, Hprog in H. cbv zeta in H.
+    inversion H; subst. sim. rewrite upd_same. reflexivity.
+  - intros rest s' Hpc Hprog H. unfold step in H. rewrite Hpc, Hprog in H. cbv zeta in H.
+    destruct (Nat.eqb 0 0 && negb (mu_free s)); [discriminate|]. inversion H; subst. sim. rewrite upd_same. reflexivity.
+  - intros rest s' Hpc Hprog H. unfold step in H. rewrite Hpc, Hprog in H. cbv zeta in H.
+    destruct (Nat.eqb 0 0 && negb (mu_free s)); [discriminate|]. inversion H; subst. sim. rewrite upd_same. reflexivity.
+Qed.
+
+(* ---- C08: accepted errors give ErrInvalidSource ---- *)
+Theorem accept_all_invalid_source_lemma : forall sched,
+  let s := run cfg sched (init cfg) in
+  1 <= ncalls s -> plain_seen s = false -> (forall tag e, ~ In (CErr tag (Some e)) (rlog s)) ->
+  error_result (hs s 0) = Some EInvalidSource.
+Proof.
+  intros sched s Hn Hp Hall. pose proof (reach_inv _ (init_reach_run sched)) as Iv. fold s in Iv.
+  pose proof (inv_calls _ Iv Hn) as Hrep.
+  destruct (root_err s) as [e|] eqn:He.
+  - destruct (inv_origin _ Iv e He) as [(c & Hin & tag & ->)|Hps]; [|congruence].
+    exfalso. eapply Hall; eassumption.
+  - unfold error_result. unfold root_err in He. rewrite Hrep, He. reflexivity.
+Qed.
+
+(* static form: a reporter that never returns an error, programs without plain errors *)
+Definition pc_call (p : pc) : option ecall :=
+  match p with
+  | PLock c | PCheck c | PInRep c _ | PUnlock c _ | PUnwind c _ _ => Some c
+  | _ => None
+  end.
+
+Record inv2 (s : state) : Prop := {
+  i2_prog : forall t, exists pre, progs cfg t = pre ++ prog (threads s t);
+  i2_call : forall t c, pc_call (tpc (threads s t)) = Some c ->
+            exists rest, prog (threads s t) = OErr (eh c) (epos c) (etag c) :: rest;
+  i2_plain : plain_seen s = true -> exists t h tag, In (OErr h false tag) (progs cfg t);
+  i2_rlog : forall tag e, In (CErr tag (Some e)) (rlog s) -> exists idx, rep cfg idx tag = Some e
+}.
+
+Lemma inv2_init : inv2 (init cfg).
+Proof.
+  constructor; cbn; intros; try discriminate; try tauto. exists []. reflexivity.
+Qed.
+
+Lemma suffix_tl {A} (l pre : list A) (r : list A) : l = pre ++ r -> exists pre', l = pre' ++ tl r.
+Proof.
+  intros ->. destruct r as [|x r]; [exists pre; reflexivity|]. exists (pre ++ [x]). rewrite <- app_assoc. reflexivity.
+Qed.
+
+Lemma inv2_step s t s' : inv2 s -> step cfg s t = Some s' -> inv2 s'.
+Proof.
+  intros J H. constructor.
+  - intros x. destruct (i2_prog _ J x) as (pre & Hp).
+    destruct (Nat.eq_dec x t) as [->|Hx]; [|rewrite (step_other _ _ _ x H Hx); eauto].
+    step_cases H; sim; rewrite upd_same; sim; eauto; eapply suffix_tl; eassumption.
+  - intros x c Hc. destruct (Nat.eq_dec x t) as [->|Hx]; [|rewrite (step_other _ _ _ x H Hx) in *; apply (i2_call _ J); assumption].
+    pose proof (i2_call _ J t) as K.
+    step_cases H; sim; rewrite upd_same in *; sim; rewrite ?Epc in K; cbn [pc_call] in *; try discriminate;
+      try (inversion Hc; subst; sim; eauto; fail); try (apply K; assumption).
+  - intros Hp. pose proof (i2_plain _ J) as K. pose proof (i2_call _ J t) as C. pose proof (i2_prog _ J t) as (pre & Hpre).
+    step_cases H; sim; try (apply K; assumption).
+    rewrite Epc in C. destruct (C _ eq_refl) as (rest & Hr). exists t, (eh c), (etag c).
+    rewrite Hpre, Hr. apply in_or_app. right. left. congruence.
+  - intros tag e Hin. pose proof (i2_rlog _ J) as K.
+    step_cases H; sim; try (apply K; assumption).
+    + destruct Hin as [E|Hin]; [|apply K; assumption]. inversion E; subst. eauto.
+    + destruct Hin as [E|Hin]; [discriminate|apply K; assumption].
+Qed.
+
+Lemma reach_inv2 s : reach s -> inv2 s.
+Proof. induction 1 as [|s t s' Hr IH Hs]; [apply inv2_init|eapply inv2_step; eassumption]. Qed.
+
+Theorem never_abort_invalid_source_lemma :
+  (forall idx tag, rep cfg idx tag = None) ->
+  (forall t h tag, ~ In (OErr h false tag) (progs cfg t)) ->
+  forall sched, let s := run cfg sched (init cfg) in
+  1 <= ncalls s -> error_result (hs s 0) = Some EInvalidSource.
+Proof.
+  intros Hrep Hplain sched s Hn. pose proof (reach_inv2 _ (init_reach_run sched)) as J. fold s in J.
+  apply accept_all_invalid_source_lemma; [assumption| |].
+  - destruct (plain_seen s) eqn:E; [|reflexivity]. destruct (i2_plain _ J E) as (t & h & tag & Hin).
+    exfalso. eapply Hplain; eassumption.
+  - intros tag e Hin. destruct (i2_rlog _ J _ _ Hin) as (idx & Hi). rewrite Hrep in Hi. discriminate.
+Qed.
+
+(* ---- C08: warnings are inert ---- *)
+Theorem warnings_inert_lemma : forall s t s',
+  at_warning (threads s t) = true -> step cfg s t = Some s' ->
+  hs s' = hs s /\ ncalls s' = ncalls s /\ handled s' = handled s /\ plain_seen s' = plain_seen s /\
+  hcount s' = hcount s /\ (forall h, error_result (hs s' h) = error_result (hs s h)) /\
+  (forall x, x <> t -> threads s' x = threads s x) /\
+  (tlog (threads s' t) = tlog (threads s t) \/ tlog (threads s' t) = LWarn :: tlog (threads s t)) /\
+  (rlog s' = rlog s \/ exists tag, rlog s' = CWarn tag :: rlog s).
+Proof.
+  intros s t s' Hw H. pose proof (step_other _ _ _ ^~ H) as Ho.
+  unfold at_warning in Hw.
+  step_cases H; try discriminate; sim; rewrite ?upd_same; sim;
+    repeat split; try reflexivity; try (intros x Hx; apply upd_other; assumption); eauto.
+Qed.
+
+(* ---- C08: success iff no error ---- *)
+Lemma error_result_none h : error_result h = None <-> herr h = None /\ hreported h = false.
+Proof.
+  unfold error_result. destruct h as [e r]; cbn. destruct r, e; cbn; split; try intros (A & B); try congruence; auto.
+Qed.
+
+Lemma path_of_self h : h <> 0 -> In h (path_of cfg h).
+Proof.
+  intros Hh. unfold path_of. rewrite <- in_rev. destruct (chain_head (parent cfg) h Hh) as (l & ->). left. reflexivity.
+Qed.
+
+Theorem success_iff_no_error_lemma : forall sched,
+  let s := run cfg sched (init cfg) in
+  (error_result (hs s 0) = None <-> handled s = 0) /\
+  (forall h, h <> 0 -> (error_result (hs s h) = None <-> hcount s h = 0)) /\
+  (forall t c ret, In (LErr c ret) (tlog (threads s t)) ->
+     error_result (hs s 0) <> None /\ (eh c <> 0 -> error_result (hs s (eh c)) <> None)).
+Proof.
+  intros sched s. pose proof (reach_inv _ (init_reach_run sched)) as Iv. fold s in Iv.
+  assert (R0 : error_result (hs s 0) = None <-> handled s = 0).
+  { split.
+    - intros E. apply error_result_none in E. destruct E as (A & B).
+      destruct (handled s) eqn:Hh; [reflexivity|]. exfalso.
+      destruct (inv_handled1 _ Iv) as [C|C]; [lia|congruence|]. apply C. exact A.
+    - intros E. rewrite (inv_handled0 _ Iv E). reflexivity. }
+  assert (Rh : forall h, h <> 0 -> (error_result (hs s h) = None <-> hcount s h = 0)).
+  { intros h Hh. split.
+    - intros E. apply error_result_none in E. destruct E as (A & B).
+      destruct (hcount s h) eqn:Hc; [reflexivity|]. exfalso.
+      destruct (inv_hcount1 _ Iv h Hh) as [C|C]; [lia|congruence|]. apply C. exact A.
+    - intros E. rewrite (inv_hcount0 _ Iv h Hh E). reflexivity. }
+  split; [exact R0|]. split; [exact Rh|].
+  intros t c ret Hin. destruct (inv_log _ Iv t c ret Hin) as (_ & A & B). split.
+  - intros E. apply R0 in E. lia.
+  - intros Hh E. apply (Rh _ Hh) in E. specialize (B _ (path_of_self _ Hh)). lia.
+Qed.
+
+(* ---- sub-handlers only ever hold the root's latched error ---- *)
+Theorem sub_handler_sound_lemma : forall sched h e,
+  let s := run cfg sched (init cfg) in
+  h <> 0 -> herr (hs s h) = Some e -> root_err s = Some e /\ error_result (hs s h) = Some e.
+Proof.
+  intros sched h e s Hh He. pose proof (reach_inv _ (init_reach_run sched)) as Iv. fold s in Iv.
+  split; [eapply inv_sub; eassumption|apply error_result_latched; assumption].
+Qed.
+
+(* ---- the handler never deadlocks: while some thread is unfinished some thread can step ---- *)
+Theorem no_deadlock_lemma : forall sched,
+  let s := run cfg sched (init cfg) in
+  (exists t, finished (threads s t) = false) -> exists t s', step cfg s t = Some s'.
+Proof.
+  intros sched s (t & Hf). pose proof (reach_inv _ (init_reach_run sched)) as Iv. fold s in Iv.
+  destruct (mu s) as [o|] eqn:Hmu.
+  - (* the owner of the mutex is inside the critical section and can always move on *)
+    pose proof (proj1 (inv_mu _ Iv o) Hmu) as Hc. exists o. unfold step.
+    destruct (tpc (threads s o)); cbn [in_critical] in Hc; try discriminate; cbv zeta; try (eexists; reflexivity).
+    destruct (herr (hs s 0)); [eexists; reflexivity|]. destruct (epos c); eexists; reflexivity.
+  - exists t. assert (Hfree : mu_free s = true) by (apply mu_free_none; assumption).
+    assert (Hnc : in_critical (tpc (threads s t)) = false).
+    { destruct (in_critical (tpc (threads s t))) eqn:E; [|reflexivity]. apply (inv_mu _ Iv) in E. congruence. }
+    unfold finished in Hf. unfold step. cbv zeta.
+    destruct (tpc (threads s t)); cbn [in_critical] in Hnc; try discriminate.
+    + destruct (prog (threads s t)) as [|o rest]; [discriminate|].
+      destruct o; rewrite ?Hfree; cbn [negb]; rewrite ?andb_false_r; eexists; reflexivity.
+    + rewrite Hfree. eexists; reflexivity.
+    + destruct path; eexists; reflexivity.
+Qed.
 
 End Rep.
